@@ -247,6 +247,69 @@ fn perp_dot_units<S: Sn>(d: &mut Draw) -> Outcome {
     pass(if nt { "generic" } else { "degenerate" }, nt)
 }
 
+
+/// f64: dot / cross / perp_dot / magnitude2 / sum / product against the reference with a
+/// rounding-only tolerance, on regimes the exact tiers cannot represent (signed zeros, wide
+/// magnitudes, nearly cancelling terms, aliased operands)
+fn products_f64(d: &mut Draw) -> Outcome {
+    let class = d.int(0, 3);
+    let comp = |d: &mut Draw| -> f64 {
+        match class {
+            0 => d.f64_slog(1e-3, 1e3),
+            1 => d.f64_slog(1e-150, 1e150),
+            2 => {
+                if d.chance(1, 3) {
+                    if d.bool() { 0.0 } else { -0.0 }
+                } else {
+                    d.f64_slog(1e-3, 1e3)
+                }
+            }
+            _ => (d.int(-4, 4) as f64) * 0.5,
+        }
+    };
+    let u: Vec<f64> = (0..4).map(|_| comp(d)).collect();
+    let v: Vec<f64> = if d.chance(1, 6) { u.clone() } else { (0..4).map(|_| comp(d)).collect() };
+    d.note("u", &u);
+    d.note("v", &v);
+    let e = f64::EPSILON;
+    macro_rules! dim {
+        ($V:ident, $n:expr, [$($f:ident),+]) => {{
+            let mut i = 0;
+            let cu = $V { $($f: { i += 1; u[i - 1] }),+ };
+            let mut i = 0;
+            let cv = $V { $($f: { i += 1; v[i - 1] }),+ };
+            let want: f64 = (0..$n).map(|k| u[k] * v[k]).sum();
+            let scale: f64 = (0..$n).map(|k| (u[k] * v[k]).abs()).sum();
+            let got = cu.dot(cv);
+            ensure!((got - want).abs() <= 8.0 * e * scale + 1e-300 || got == want, "dot-f64", "{}::dot = {:e}, reference {:e}", stringify!($V), got, want);
+            ensure!(cu.dot(cv) == cv.dot(cu), "dot-symmetric-f64", "{}::dot is not symmetric in f64", stringify!($V));
+            ensure!(cu.magnitude2() == cu.dot(cu), "magnitude2-f64", "{}::magnitude2 != dot(u,u)", stringify!($V));
+            let s: f64 = (0..$n).map(|k| u[k]).sum();
+            let sa: f64 = (0..$n).map(|k| u[k].abs()).sum();
+            ensure!((cu.sum() - s).abs() <= 8.0 * e * sa + 1e-300, "sum-f64", "{}::sum = {:e}, reference {:e}", stringify!($V), cu.sum(), s);
+            // the order of the fold is not specified: skip the regime where partial products over/underflow
+            if class != 1 {
+                let p: f64 = (0..$n).map(|k| u[k]).product();
+                ensure!((cu.product() - p).abs() <= 8.0 * e * p.abs() + 1e-300 || cu.product() == p, "product-f64", "{}::product = {:e}, reference {:e}", stringify!($V), cu.product(), p);
+            }
+        }};
+    }
+    dim!(Vector1, 1, [x]);
+    dim!(Vector2, 2, [x, y]);
+    dim!(Vector3, 3, [x, y, z]);
+    dim!(Vector4, 4, [x, y, z, w]);
+    let (a3, b3) = (Vector3::new(u[0], u[1], u[2]), Vector3::new(v[0], v[1], v[2]));
+    let c = a3.cross(b3);
+    let want = [u[1] * v[2] - u[2] * v[1], u[2] * v[0] - u[0] * v[2], u[0] * v[1] - u[1] * v[0]];
+    let sc = [(u[1] * v[2]).abs() + (u[2] * v[1]).abs(), (u[2] * v[0]).abs() + (u[0] * v[2]).abs(), (u[0] * v[1]).abs() + (u[1] * v[0]).abs()];
+    for (k, got) in [c.x, c.y, c.z].iter().enumerate() {
+        ensure!((got - want[k]).abs() <= 4.0 * e * sc[k] + 1e-300, "cross-f64", "component {} of cross is {:e}, reference {:e}", k, got, want[k]);
+    }
+    let pd = Vector2::new(u[0], u[1]).perp_dot(Vector2::new(v[0], v[1]));
+    ensure!((pd - want[2]).abs() <= 4.0 * e * sc[2] + 1e-300, "perp_dot-f64", "perp_dot is {:e}, reference {:e}", pd, want[2]);
+    pass(["generic", "wide-magnitudes", "signed-zeros", "small-dyadic"][class as usize], true)
+}
+
 const RULE: &str = "all components non-zero and pairwise distinct in absolute value within each vector; scalars not 0/1";
 
 pub fn property() -> Property {
@@ -280,6 +343,9 @@ pub fn property() -> Property {
     add!("perp_dot_units-Q", "Q", perp_dot_units::<Q>, 3000, 200_000, 24);
     add!("perp_dot_units-Fp", "Fp", perp_dot_units::<Fp>, 3000, 200_000, 24);
     add!("perp_dot_units-i64", "i64", perp_dot_units::<i64>, 3000, 200_000, 24);
+    s.push(SubCheck { name: "products-f64", scalar: "f64", quick: 6000, thorough: 400_000, len: 48, f: products_f64,
+        required: &[("generic", 100), ("wide-magnitudes", 100), ("signed-zeros", 100), ("small-dyadic", 100)],
+        rule: "every generated pair; regimes generic / wide magnitudes / signed zeros / small dyadic values, operands aliased now and then", exhaustive: false });
     Property {
         id: "C03",
         title: "Vectors form an inner-product space; cross and perp-dot products are exact",
